@@ -184,7 +184,8 @@ def main(argv=None):
                 rep["checked"] = [n for n in rep["checked"] if keep(n)]
                 rep["failed"] = [n for n in rep["failed"] if keep(n)]
                 cs["names"] = [n for n in cs["names"] if keep(n)]
-                if rep["crash"] or rep["checked"] != cs["names"] or set(rep["failed"]) != set(cs["failed_sym"]):
+                # an obligation proved symbolically on this path must not fail natively on an input of this path
+                if rep["crash"] or rep["checked"] != cs["names"] or (set(rep["failed"]) - set(cs["failed_sym"])):
                     conf_bad += 1
                     undecided.append(f"{r['scenario']}: ENGINE-MISMATCH symbolic path vs CPython on {json.dumps(cs['model'], default=str)[:300]}: sym reached {cs['names'][:6]}.. failed {cs['failed_sym']}; native reached {rep['checked'][:6]}.. failed {rep['failed']} {(rep['crash'] or '')[-300:]}")
         # ---- known findings with a T1 witness: replay the committed witness on the real code
